@@ -111,18 +111,10 @@ def touches_primitives(g):
     return g._prim
 
 
-_REFERENCE = None
-
-
-def reference_fns():
-    """function ids of the tree the rule instances were confirmed on (tools/gen_reference_fns.py)"""
-    global _REFERENCE
-    if _REFERENCE is None:
-        try:
-            _REFERENCE = set(json.load(open(os.path.join(os.path.dirname(os.path.abspath(__file__)), "reference_fns.json"))))
-        except (OSError, ValueError):
-            _REFERENCE = set()
-    return _REFERENCE
+def reference_fns(tag):
+    """function ids of the tree the rule instances were confirmed on (tools/gen_reference_fns.py), for one build tag"""
+    from .facts import reference
+    return set((reference().get(tag) or {}).get("fns", {}))
 
 
 def inlinable(db, caller, g, mode="cons"):
@@ -132,7 +124,7 @@ def inlinable(db, caller, g, mode="cons"):
         return False
     if mode == "new":
         # exactly the helpers that did not exist on the reference tree: what a later change extracted
-        ref = reference_fns()
+        ref = reference_fns(db.tag)
         if not ref or g.id in ref:
             return False
         return g.kind in ("fn", "method") and g.crate == caller.crate and not (g.raw.get("trait_item") or g.raw.get("in_trait")) and "::tests::" not in g.id
